@@ -38,7 +38,8 @@ KEY_GLOBAL = "C11:sample_from_probability_map:global-random-state"
 KEY_HC0 = "C11:permanent_cpp:hardware_concurrency=0"
 KEY_CAST = "C11:n_aryGrayCodeCounter.initialize:offset>=2^31"
 
-IMPORTS = CASES_HEADER + ("From PV Require Import Base.CasesLib C11.GrayModel C11.PermModel "
+IMPORTS = CASES_HEADER + ("From PV Require C04.PermModel.\n"
+                          "From PV Require Import Base.CasesLib C11.GrayModel C11.PermModel "
                           "C11.RngModel.\n")
 
 
@@ -586,6 +587,17 @@ Definition flatl (o : option (list gi)) : list Z :=
   match o with Some l => 1 :: flat_map (fun '(a, b) => [a; b]) l | None => [0] end.
 Eval vm_compute in flat_map (fun '(A, rows, cols, hcs) =>
   flat_map (fun hc => flat (perm_jobs_gi true hc A rows cols) ++ flatl (laplace_jobs_gi true hc A rows cols)) hcs) pcases.
+(* the same cases in C04's transcription of the kernel (about which the thread-count theorems
+   of Props/C11.v are stated): both models must return the same numerator *)
+Definition c04_agrees (x : list (list gi) * list Z * list Z * list Z) : bool :=
+  let '(A, rows, cols, hcs) := x in
+  forallb (fun hc =>
+    match C04.PermModel.permanent_cpp_zi 64 64 (Z.to_nat (Z.max hc 1)) A (map Z.to_nat rows) (map Z.to_nat cols),
+          perm_jobs_gi true hc A rows cols with
+    | C04.PermModel.Ok (n, _), Some m => gi_eqb n m
+    | _, _ => false
+    end) hcs.
+Eval vm_compute in mismatches c04_agrees pcases.
 """ % ";\n".join(items))
     from common import coq_eval_parallel
     outs = coq_eval_parallel("c11_perm", chunks, jobs=4)
@@ -593,7 +605,11 @@ Eval vm_compute in flat_map (fun '(A, rows, cols, hcs) =>
     hc0_bad = []
     other_bad = []
     for ci_chunk, o in enumerate(outs):
-        vals = parse_coq_list(o)[0]
+        groups_ = parse_coq_list(o)
+        vals = groups_[0]
+        for k in (groups_[1] if len(groups_) > 1 else [-1]):
+            corr_broken.append("C11's and C04's models of permanent_cpp disagree on native case %s"
+                               % (ci_chunk * per + k if k >= 0 else "(no answer)"))
         pos = 0
         for c_off, c in enumerate(cases[ci_chunk * per:(ci_chunk + 1) * per]):
             ci = ci_chunk * per + c_off
@@ -666,19 +682,16 @@ Eval vm_compute in flat_map (fun '(A, rows, cols, hcs) =>
     for g in gcases:
         items.append("(%s, %s, %d%%nat)" % (clist(g["lims"]), cz(g["start"]), g["steps"]))
     body = IMPORTS + """
-(* the model of the repaired code: no int cast of the offset *)
-Definition construct64 (lims : list Z) (o : Z) : option counter :=
-  if (o <? 0) || (prodZ lims - 1 <? o) then None
-  else let ch := chain_of lims o in Some (mkCounter lims ch (fst (gray_from lims ch)) o (prodZ lims - 1)).
+(* construct 64: the model of the repaired code (64-bit offset); construct 32: as it was *)
 Fixpoint trace (n : nat) (c : counter) : list Z :=
   match n with O => [] | S m => match next c with
     | Some (c', i, pv, v) => [Z.of_nat i; pv; v] ++ trace m c' | None => [-1] end end.
 Fixpoint last_gray (n : nat) (c : counter) : list Z :=
   match n with O => c_gray c | S m => match next c with Some (c', _, _, _) => last_gray m c' | None => c_gray c end end.
 Definition gcases : list (list Z * Z * nat) := [%s].
-Eval vm_compute in flat_map (fun '(lims, o, n) => match construct64 lims o with
+Eval vm_compute in flat_map (fun '(lims, o, n) => match construct 64 lims o with
   | Some c => (c_gray c ++ [-7] ++ trace n c ++ [-7] ++ last_gray n c ++ [-9]) | None => [-8; -9] end) gcases.
-Eval vm_compute in map (fun '(lims, o, n) => match construct lims o with Some _ => 1 | None => 0 end) gcases.
+Eval vm_compute in map (fun '(lims, o, n) => match construct 32 lims o with Some _ => 1 | None => 0 end) gcases.
 """ % ";\n".join(items)
     gl = parse_coq_list(coq_eval("c11_gray", body))
     flat, castok = gl[0], gl[1]
@@ -727,15 +740,79 @@ Eval vm_compute in map (fun '(lims, o, n) => match construct lims o with Some _ 
                samples=[gcases[0]], note="%d agree; includes %d offsets beyond 2^31" % (ngood, len(big)))
 
 
+# =========================================================================== thread sweep
+SWEEP = [1, 2, 5, 16]
+
+
+def start_sweep(chk):
+    ex = ThreadPoolExecutor(max_workers=4)
+    futs = {t: ex.submit(run_impl, "c11_threads_impl.py", {"seed": 40 + chk.seed}, 1500,
+                         {"NUMBA_NUM_THREADS": str(t), "OMP_NUM_THREADS": str(t),
+                          "OPENBLAS_NUM_THREADS": str(t)}) for t in SWEEP}
+    return ex, futs
+
+
+def finish_sweep(chk, sweep, corr_broken):
+    ex, futs = sweep
+    res = {}
+    for t, f in futs.items():
+        try:
+            res[t] = f.result()
+        except Exception as e:  # a crash under some thread count is a finding, not a skip
+            chk.violation("C11:thread-sweep:threads=%d:crash" % t, "runner failed with %d threads" % t,
+                          {"threads": t, "error": str(e)[-800:]})
+    ex.shutdown()
+    if 1 not in res:
+        corr_broken.append("thread sweep: no result for 1 thread")
+        return
+
+    def leaves(x):
+        if isinstance(x, list):
+            for y in x:
+                yield from leaves(y)
+        else:
+            yield float(x)
+
+    ref = res[1]
+    n = 0
+    names = [k for k in ref if k not in ("loaded_from", "numba_threads")]
+    for t, r in res.items():
+        if os.path.realpath(r["loaded_from"]) != os.path.realpath(REPO):
+            corr_broken.append("thread sweep loaded piquasso from %s" % r["loaded_from"])
+        if r["numba_threads"] != t:
+            corr_broken.append("thread sweep: asked for %d numba threads, got %d" % (t, r["numba_threads"]))
+        if t == 1:
+            continue
+        for k in names:
+            a, b = list(leaves(ref[k])), list(leaves(r.get(k, [])))
+            n += len(a)
+            scale = max([abs(x) for x in a] + [1e-300])
+            bad = len(a) != len(b) or any(abs(x - y) > 1e-12 * scale and abs(x - y) > 1e-10 * abs(x)
+                                          for x, y in zip(a, b))
+            if bad:
+                i = next((i for i, (x, y) in enumerate(zip(a, b)) if abs(x - y) > 1e-12 * scale), 0)
+                chk.violation("C11:%s:threads=%d" % (k, t),
+                              "%s differs between 1 and %d threads (NUMBA_NUM_THREADS = OMP_NUM_THREADS)" % (k, t),
+                              {"quantity": k, "threads": t, "index": i, "one_thread": a[i] if a else None,
+                               "other": b[i] if i < len(b) else None, "seed": 40 + chk.seed,
+                               "call": "harness/impl/c11_threads_impl.py"})
+    chk.stream("differential test (no theorem): hafnian / loop hafnian probabilities, torontonian, interferometer on Fock space, "
+               "permanent with NUMBA_NUM_THREADS = OMP_NUM_THREADS in {1,2,5,16}: equal within 1e-12 of the largest entry",
+               n, n, kind="differential test (no theorem)",
+               samples=[{"quantity": "hafnian", "values_1_thread": ref["hafnian"][:3]}])
+
+
 # =========================================================================== entry
 def run(chk: Check):
     chk.proofs()
     corr_broken = []
     only = os.environ.get("C11_ONLY", "ab")
+    sweep = start_sweep(chk)
     if "b" in only:
         part_b(chk, corr_broken)
     if "a" in only:
         part_a(chk, corr_broken)
+    finish_sweep(chk, sweep, corr_broken)
     chk.assumptions += [
         "streams of different (library, seed) are independent and distinct seeds give distinct streams (property of PCG64 / MT19937; not modelled)",
         "the number of raw values a sampling call consumes is a function of the generator state and the request (so equal (stream, requests served) means equal generator state)",
@@ -745,6 +822,6 @@ def run(chk: Check):
     ]
     chk.finish(
         rule="histories: one evaluation per execution result, non-trivial = equal to an earlier result (a reproduced sample list); native: one evaluation per (matrix, forced hardware_concurrency), non-trivial = Gray range of at least 4 offsets; Gray counter: cases with >= 2 digits and >= 2 steps",
-        explanation="Theorems of coq/theories/Props/C11.v: (a) for every history, two fresh simulators with the same seed return the same symbolic result in the model of the repaired code (refuted, with witnesses, for the tree as it was); dask branch = sequential branch; (b) the Gray map is a bijection, consecutive codes differ in one digit by one, initialize(o)=next^o(initialize 0), the job ranges partition [0,idx_max) for every job count and the job sums add up to the same total in any monoid. Tie: equality patterns of real sample lists vs the model for generated histories (one process per world, os.urandom scripted); freshly compiled src/permanent*.cpp with hardware_concurrency forced vs the exact value of the model's job loop over Z[i]; the Gray counter digit by digit.",
+        explanation="Theorems of coq/theories/Props/C11.v: (a) for every history, two fresh simulators with the same seed return the same symbolic result in the model of the repaired code (refuted, with witnesses, for the tree as it was); dask branch = sequential branch; (b) the Gray map is a bijection, consecutive codes differ in one digit by one, initialize(o)=next^o(initialize 0), the job ranges partition [0,idx_max) for every job count and the job sums add up to the same total in any monoid; for C04's model of the kernel (incremental state proved) permanent_cpp / permanent_laplace_cpp return the same outcome, 2^e * perm_def, for every thread count >= 1. Tie: equality patterns of real sample lists vs the model for generated histories (one process per world, os.urandom scripted); freshly compiled src/permanent*.cpp with hardware_concurrency forced vs the exact value of the model's job loop over Z[i]; the Gray counter digit by digit.",
         correspondence_broken=corr_broken,
     )
